@@ -259,6 +259,36 @@ func runC13(c *ShardCtx) {
 			}
 		}
 	}
+	// (e) class texts: every class of <= K pieces (quick 3, thorough 4) from plain runes, '-', '^',
+	// escapes and Unicode classes (valid or not: trailing and doubled hyphens, descending ranges),
+	// with and without i, alone / next to a class the optimizer merges it with, x 4 flag sets
+	{
+		k := 3
+		if c.Thorough() {
+			k = 4
+		}
+		for _, src := range classTexts(k) {
+			idx++
+			if !c.Mine(idx) {
+				continue
+			}
+			if c.Expired("family e") {
+				return
+			}
+			c.Res.Grammars++
+			for _, suffix := range []string{"", "i"} {
+				for _, shape := range []string{"A <- %s 'z'\n", "A <- %s / [b-d] / 'x'\n"} {
+					text := []byte("{\npackage p\n}\n" + fmt.Sprintf(shape, src+suffix))
+					for _, m := range []int{0, 2, 4, 31} {
+						x.build(text, m)
+					}
+					if idx%64 == 0 {
+						x.call(text, fs32[6], "family e")
+					}
+				}
+			}
+		}
+	}
 	// (d) rule-reference graphs whose nullability is mutually dependent (the analysis iterates to
 	// a fixpoint: it has to terminate): A <- w(B) / w(C) / end ; B, C <- aliases of A
 	{
@@ -371,4 +401,22 @@ func runC13(c *ShardCtx) {
 		rec(nil, sig, 3)
 		rec(nil, all, 2)
 	}
+}
+
+// classTexts enumerates the class texts "[...]" of at most k pieces.
+func classTexts(k int) []string {
+	pieces := []string{"a", "d", "-", "^", "é", `\t`, `\]`, `\\`, `\x2d`, `\101`, `\pL`, `\p{Nd}`}
+	var out []string
+	var rec func(n int, s string)
+	rec = func(n int, s string) {
+		out = append(out, "["+s+"]")
+		if n == k {
+			return
+		}
+		for _, p := range pieces {
+			rec(n+1, s+p)
+		}
+	}
+	rec(0, "")
+	return out
 }
